@@ -353,8 +353,27 @@ def job_nesting(tier, rng, dims):
             if not from_repo(ex):
                 raise
             chk(False, what=f'PureBosonicExt exception {type(ex).__name__}: {str(ex)[:200]}', k=k)
+    # the convex-hull (CHA) gradient model at ARBITRARY parameters: its state is a mixture of product states on the requested dA x dB cut, hence a density matrix accepted by
+    # every outer test and inside the PPT boundary on its own ray (both orderings of a non-square pair are exercised: the job for (dA,dB) also builds the (dB,dA) model)
+    for dd in ([dims] if dA == dB else [dims, (dB, dA)]):
+        try:
+            model = E.AutodiffCHAREE(dd, num_state=2 * D)
+            for rep in range(3):
+                with torch.no_grad():
+                    for p in model.parameters():
+                        p.copy_(torch.tensor(rng.normal(size=tuple(p.shape)), dtype=p.dtype))
+                    model.set_dm_target(np.eye(D) / D); model()
+                rho = model.dm_torch.numpy().copy(); rho = (rho + rho.conj().T) / 2
+                ok = abs(np.trace(rho) - 1) < 1e-9 and np.linalg.eigvalsh(rho).min() > -1e-9
+                ok = ok and np.linalg.eigvalsh(_pt(rho, dd[0], dd[1])).min() > -1e-9 and bool(E.is_ppt(rho, dd)) and bool(E.check_reduction_witness(rho, dd)) and bool(E.is_generalized_ppt(rho, dd))
+                ok = ok and float(gm.dm_to_gellmann_norm(rho)) <= float(ppt.get_ppt_boundary(rho, dd)[1]) * (1 + 1e-9)
+                chk(ok, what=f'AutodiffCHAREE{tuple(dd)} state at random parameters is a PPT density matrix inside the PPT boundary of its ray', rep=rep)
+        except Exception as ex:
+            if not from_repo(ex):
+                raise
+            chk(False, what=f'AutodiffCHAREE exception {type(ex).__name__}: {str(ex)[:200]}', dims=list(dd))
     return [ob(f'{PROP}.hierarchy_nested[dims={tuple(dims)}]', 'pass' if bad is None else 'refuted', tier='B', backend='native',
-               functions=['numqi.entangle.symext:get_ABk_symmetric_extension_boundary', 'numqi.entangle.symext:is_ABk_symmetric_ext', 'numqi.entangle.cha:CHABoundaryBagging', 'numqi.entangle.pureb:PureBosonicExt'],
+               functions=['numqi.entangle.symext:get_ABk_symmetric_extension_boundary', 'numqi.entangle.symext:is_ABk_symmetric_ext', 'numqi.entangle.cha:CHABoundaryBagging', 'numqi.entangle.cha:AutodiffCHAREE', 'numqi.entangle.pureb:PureBosonicExt'],
                evaluations=cnt, distinct_nontrivial=cnt, witness=bad, native=dict(confirmed=bad is not None), sample=dict(dims=list(dims)), solver_failures_skipped=skipped)]
 
 
